@@ -97,7 +97,7 @@ impl<'a> TryFrom<&'a str> for Tag<'a> {
             TryFrom::try_from(input).map(Self::ExtXByteRange)
         } else if input.starts_with(tags::ExtXDiscontinuitySequence::PREFIX) {
             TryFrom::try_from(input).map(Self::ExtXDiscontinuitySequence)
-        } else if input.starts_with(tags::ExtXDiscontinuity::PREFIX) {
+        } else if input == tags::ExtXDiscontinuity::PREFIX {
             TryFrom::try_from(input).map(Self::ExtXDiscontinuity)
         } else if input.starts_with(tags::ExtXKey::PREFIX) {
             TryFrom::try_from(input).map(Self::ExtXKey)
@@ -111,11 +111,11 @@ impl<'a> TryFrom<&'a str> for Tag<'a> {
             TryFrom::try_from(input).map(Self::ExtXDateRange)
         } else if input.starts_with(tags::ExtXMediaSequence::PREFIX) {
             TryFrom::try_from(input).map(Self::ExtXMediaSequence)
-        } else if input.starts_with(tags::ExtXEndList::PREFIX) {
+        } else if input == tags::ExtXEndList::PREFIX {
             TryFrom::try_from(input).map(Self::ExtXEndList)
         } else if input.starts_with(PlaylistType::PREFIX) {
             TryFrom::try_from(input).map(Self::PlaylistType)
-        } else if input.starts_with(tags::ExtXIFramesOnly::PREFIX) {
+        } else if input == tags::ExtXIFramesOnly::PREFIX {
             TryFrom::try_from(input).map(Self::ExtXIFramesOnly)
         } else if input.starts_with(tags::ExtXMedia::PREFIX) {
             TryFrom::try_from(input).map(Self::ExtXMedia)
@@ -127,7 +127,7 @@ impl<'a> TryFrom<&'a str> for Tag<'a> {
             TryFrom::try_from(input).map(Self::ExtXSessionData)
         } else if input.starts_with(tags::ExtXSessionKey::PREFIX) {
             TryFrom::try_from(input).map(Self::ExtXSessionKey)
-        } else if input.starts_with(tags::ExtXIndependentSegments::PREFIX) {
+        } else if input == tags::ExtXIndependentSegments::PREFIX {
             TryFrom::try_from(input).map(Self::ExtXIndependentSegments)
         } else if input.starts_with(tags::ExtXStart::PREFIX) {
             TryFrom::try_from(input).map(Self::ExtXStart)
